@@ -44,7 +44,8 @@ ASSUMPTIONS = [
     "'own' revisions = keys of repository.revisions.without_fallbacks(); a parent counts as a ghost when neither the stacked repository nor its fallback has the revision",
     "the strong local statement is judged on Repository.open(stacked location), which has no fallbacks: inventories of own revisions and of their non-ghost parents must iterate there, and every entry of an own revision whose text key is not carried by any present parent must have its text there",
     "check() is run on the stacked repository with its fallback attached",
-    "unstacking is always the last operation of a run; afterwards (and after an unstack that failed under an injected error, once locks are broken) the branch is judged by what it records: stacked -> the usual oracle with its fallback, not stacked -> the whole ancestry of its tip must be readable from its own repository alone; the retry must succeed; check() is run on an unstacked repository only when every revision it holds has its ancestry locally (unstacking copies the tip's ancestry only)",
+    "unstacking is always the last operation of a run; afterwards (and after an unstack that failed under an injected error, once locks are broken) the branch is judged by what it records: stacked -> the usual oracle with its fallback, not stacked -> the whole ancestry of its tip must be readable from its own repository alone; the retry must succeed; check() is run on an unstacked repository only when every revision it holds has its ancestry locally; after a completed unstack the revisions the repository holds OUTSIDE the tip's ancestry must still be readable as well (they were, through the fallback, before the call)",
+    "a branch stacked on the stacked branch itself (sprout --stacked from it) is not judged any more after its fallback was unstacked into a repository that keeps revisions or parent inventories outside its tip's ancestry (their ancestry stayed in the former fallback)",
     "branches created under a default stacking policy may come out stacked or unstacked; either way the tip must be reconstructible by the branch opened alone; a creation refused with IncompatibleRepositories / IncompatibleFormat / Unstackable*Format is not a violation",
     "a commit that breezy refuses (ghost right-hand parent in a stacked branch: 'Unable to fill in parent inventories') is not a violation of this property; the state it leaves is judged like any other",
 ]
@@ -324,7 +325,7 @@ def execute(sim, plan, _scratch=None):
                         repo.fetch(src, revision_id=r.encode())
                         break
 
-    def oracle_unstacked(url, tag):
+    def oracle_unstacked(url, tag, all_own=False):
         """The branch records no fallback: its tip and the whole non-ghost ancestry of
         the tip must be reconstructible from its own repository alone."""
         from breezy.branch import Branch
@@ -358,12 +359,20 @@ def execute(sim, plan, _scratch=None):
                         list(tree.iter_changes(repo.revision_tree(p.encode())))
                     except Exception as e:  # noqa: BLE001
                         sim.fail("unstacked", ["unstacked", fmt, "iter_changes:" + type(e).__name__], f"{tag}: iter_changes of tip {tip} against {p} failed: {type(e).__name__}: {e}")
+            if all_own:
+                # the branch that was just unstacked: the OTHER revisions its repository
+                # holds (abandoned tips, fetched-only revisions) were readable through the
+                # fallback a moment ago and must not have lost their data
+                others = [r for r in mh.order if r not in anc and r.encode() in {k[0] for k in repo.revisions.keys()}]
+                for kind_, rid, fid, detail in storesim.dag_problems(repo, mh, others, per_file=False):
+                    sim.fail("unstacked", ["unstacked", fmt, "revisions-outside-tip-ancestry-unreadable-after-unstack"], f"{tag}: the unstacked repository still lists {rid} (not an ancestor of the tip {tip}; listed revisions outside the tip's ancestry: {others}) but can no longer read it: {detail}")
             complete = all(set(mh.ancestry(r)) & set(mh.revs) <= {x.decode() for x in repo.has_revisions([a.encode() for a in mh.ancestry(r)])} for r in (k[0].decode() for k in repo.revisions.keys()) if r in mh.revs)
         if complete:
             prob = storesim.check_clean(repo)
             if prob:
                 sim.fail("check", ["check", sig, tag, prob.split(" ")[0]], f"{tag}: {prob}")
         sim.probe("judged_unstacked")
+        return complete
 
     def judge_any(url, tag):
         """Stacked with its recorded fallback, or unstacked and complete."""
@@ -394,6 +403,7 @@ def execute(sim, plan, _scratch=None):
                 pass
 
     host = []
+    chain = set()  # stacked branches whose fallback is the stacked branch itself
     unstacked_urls = set()
 
     for op in plan["ops"]:
@@ -522,9 +532,18 @@ def execute(sim, plan, _scratch=None):
             if b.repository._fallback_repositories:
                 sim.fail("unstacked", ["unstacked", fmt, "still-stacked-after-unstack"], f"set_stacked_on_url(None) returned but the branch still has fallbacks {b.repository._fallback_repositories}")
             del b
-            oracle_unstacked(stk_url, "after-unstack")
+            complete = oracle_unstacked(stk_url, "after-unstack", all_own=True)
             unstacked_urls.add(stk_url)
             stacked.remove(stk_url)
+            if not complete:
+                # the unstacked repository keeps revisions / stacking-support inventories
+                # outside its tip's ancestry whose ancestry stayed in the former fallback;
+                # branches stacked ON it are no longer a stacking configuration this
+                # property speaks about
+                for u in sorted(chain):
+                    if u in stacked:
+                        stacked.remove(u)
+                        sim.probe("chain_clone_unjudged_after_unstack_left_partial_ancestry")
             touched += 1
             sim.probe("unstack_" + how)
             continue
@@ -651,6 +670,8 @@ def execute(sim, plan, _scratch=None):
                     continue
                 fail_op("clone:" + how, e, f"creating stacked clone {n} from {src_where}")
             stacked.append(new_url)
+            if how == "sprout":
+                chain.add(new_url)
             touched += 1
             sim.probe("stacked_clone_from_" + src_where)
             sim.event("clone", src_where, how)
